@@ -33,4 +33,24 @@ props_alg.SPECS['C04']['extra'].append((dict(props_alias.GROUP, replay_prefix='a
 props_lin.SPECS['C13']['extra'] = list(props_lin.SPECS['C13'].get('extra', [])) + [(props_lin.GROUP_DBL, props_lin.gen_dbl_c13)]
 props_lin.SPECS['C14']['extra'] = list(props_lin.SPECS['C14'].get('extra', [])) + [(props_lin.GROUP_DBL, props_lin.gen_dbl_c14)]
 props_alg.SPECS['C15']['extra'] = list(props_alg.SPECS['C15'].get('extra', [])) + [(props_lin.GROUP_DBL, props_alg.gen_dbl_c15)]
+# process-wide state that is initialised by the first request (static tables): every property that uses Pauli::matrix also runs
+# fresh harness processes whose first requests come in another order than 0, 1, 2, 3
+def _pauli_order(first):
+    def gen(g, tier):
+        import itertools
+        perms = [p for p in itertools.permutations(range(4)) if p[0] == first]
+        g.shuffle(perms)
+        cs = [props_alg.Case('o.c15.pauliorder %d %d %d %d' % p, 'orc', 'pauli-matrices-first-request-%d' % first) for p in perms[:3]]
+        return cs
+    return gen
+for _pid in ('C15', 'C03'):
+    for _first in (3, 2, 1):
+        props_alg.SPECS[_pid]['extra'] = list(props_alg.SPECS[_pid].get('extra', [])) + [(dict(props_alg.GROUP, replay_prefix=('o.c15.pauliorder',)), _pauli_order(_first))]
+props_alias.SPECS['C16']['extra'] = list(props_alias.SPECS['C16'].get('extra', [])) + [(props_alias.GROUP_DBL, props_alias.gen_dbl_c16)]
+# C13's scalar-multiplication clause with the scalar taken by reference from the matrix / vector itself: the Vector and Matrix
+# rows of the aliasing table as implementation oracles under C13 too
+def _linear_alias_rows(g, tier):
+    return [c for c in props_alias.gen_C16(g, tier) if c.line.startswith(('al.vec ', 'al.mat ', 'al.vecvec', 'al.matmat', 'al.stokes'))]
+props_lin.SPECS['C13']['extra'] = list(props_lin.SPECS['C13'].get('extra', [])) + [(dict(props_alias.GROUP, replay_prefix='al.'), _linear_alias_rows)]
+props_sim.SPECS['C06']['extra'] = list(props_sim.SPECS['C06'].get('extra', [])) + [(props_sim.GROUP_FAST, props_sim.gen_fast_c06)]
 NOT_CLAIMED = {}
